@@ -1,13 +1,23 @@
 package main
 
 import (
+	"bytes"
 	"fmt"
 	"go/ast"
+	"go/printer"
+	"go/token"
 	"sort"
 	"strings"
 )
 
 func init() { gens["Src_binder.v"] = genBinder }
+
+// bodySrc prints a function body with go/printer and removes all white space.
+func bodySrc(fd *ast.FuncDecl) string {
+	var buf bytes.Buffer
+	printer.Fprint(&buf, token.NewFileSet(), fd.Body)
+	return strings.Join(strings.Fields(buf.String()), "")
+}
 
 var typeWidth = map[string]int{"int64": 64, "int32": 32, "int16": 16, "int8": 8, "int": 64,
 	"uint64": 64, "uint32": 32, "uint16": 16, "uint8": 8, "byte": 8, "uint": 64, "float64": 64, "float32": 32}
@@ -37,7 +47,8 @@ func genBinder(repo string) (string, error) {
 		bits            string
 		must            string
 	}
-	var scalars, slices []scalar
+	var scalars, slices, oracleScalars, oracleSlices []scalar
+	funcSrc := map[string]string{} // bool, duration, bools, durations: whole source, blanks removed
 	castW := map[string]map[string]int{}  // helper family fn ("int","uint","float") -> dest elem type -> conversion width
 	sliceBits := map[string]map[string]string{} // "ints"/"uints"/"floats" -> elem type -> bits literal
 	for _, d := range f.Decls {
@@ -58,6 +69,16 @@ func genBinder(repo string) (string, error) {
 								return "", fmt.Errorf("%s: unexpected arity of %s", fd.Name.Name, h)
 							}
 							scalars = append(scalars, scalar{fd.Name.Name, h, dest, lit(ce.Args[2]), lit(ce.Args[3])})
+						case "boolValue", "duration":
+							if len(ce.Args) != 3 {
+								return "", fmt.Errorf("%s: unexpected arity of %s", fd.Name.Name, h)
+							}
+							oracleScalars = append(oracleScalars, scalar{fd.Name.Name, h, dest, "", lit(ce.Args[2])})
+						case "boolsValue", "durationsValue":
+							if len(ce.Args) != 3 {
+								return "", fmt.Errorf("%s: unexpected arity of %s", fd.Name.Name, h)
+							}
+							oracleSlices = append(oracleSlices, scalar{fd.Name.Name, h, strings.TrimPrefix(dest, "[]"), "", lit(ce.Args[2])})
 						case "intsValue", "uintsValue", "floatsValue":
 							if len(ce.Args) != 3 {
 								return "", fmt.Errorf("%s: unexpected arity of %s", fd.Name.Name, h)
@@ -67,6 +88,10 @@ func genBinder(repo string) (string, error) {
 					}
 				}
 			}
+		}
+		switch fd.Name.Name {
+		case "bool", "duration", "bools", "durations":
+			funcSrc[fd.Name.Name] = bodySrc(fd)
 		}
 		switch fd.Name.Name {
 		case "int", "uint", "float":
@@ -138,15 +163,71 @@ func genBinder(repo string) (string, error) {
 	if len(scalars) < 20 || len(slices) < 10 {
 		return "", fmt.Errorf("binder.go: found only %d scalar and %d slice forwarding methods", len(scalars), len(slices))
 	}
+	// bool (family 3, width 1) and duration (family 4, width 64): the library parser's result must be stored
+	// as it is, only on success (scalar), and a slice must be published only when no error was recorded
+	type orcDesc struct {
+		fam, w      int
+		parse, store string
+	}
+	orcOf := map[string]orcDesc{
+		"boolValue":      {3, 1, "strconv.ParseBool(value)", "*dest=n"},
+		"duration":       {4, 64, "time.ParseDuration(value)", "*dest=t"},
+		"boolsValue":     {3, 1, "b.bool(sourceParam,v,&tmp[i])", "*dest=tmp"},
+		"durationsValue": {4, 64, "time.ParseDuration(v)", "*dest=tmp"},
+	}
+	srcOf := map[string]string{"boolValue": "bool", "duration": "duration", "boolsValue": "bools", "durationsValue": "durations"}
+	if len(oracleScalars) < 4 || len(oracleSlices) < 4 {
+		return "", fmt.Errorf("binder.go: found only %d bool/duration scalar and %d slice forwarding methods", len(oracleScalars), len(oracleSlices))
+	}
+	type extra struct {
+		name           string
+		fam, bits, dw, cw int
+		must           string
+	}
+	var exScalars, exSlices []extra
+	for _, s := range oracleScalars {
+		d := orcOf[s.helper]
+		src := funcSrc[srcOf[s.helper]]
+		cw := d.w
+		if !strings.Contains(src, d.parse) || !strings.Contains(src, d.store) {
+			cw = 0
+		}
+		if i, j := strings.Index(src, d.store), strings.Index(src, "err!=nil"); i >= 0 && j >= 0 && i < j {
+			cw = -1 // stored before the error check
+		}
+		exScalars = append(exScalars, extra{s.name, d.fam, d.w, d.w, cw, s.must})
+	}
+	for _, s := range oracleSlices {
+		d := orcOf[s.helper]
+		src := funcSrc[srcOf[s.helper]]
+		bits, cw := d.w, d.w
+		if !strings.Contains(src, d.parse) || !strings.Contains(src, d.store) {
+			cw = 0
+		}
+		if !strings.Contains(src, "ifb.errors==nil{*dest=tmp}") {
+			bits = -1
+		}
+		exSlices = append(exSlices, extra{s.name, d.fam, bits, d.w, cw, s.must})
+	}
+	for _, x := range exScalars {
+		scalars = append(scalars, scalar{name: x.name, helper: fmt.Sprintf("#%d,%d,%d,%d", x.fam, x.bits, x.dw, x.cw), must: x.must})
+	}
+	for _, x := range exSlices {
+		slices = append(slices, scalar{name: x.name, helper: fmt.Sprintf("#%d,%d,%d,%d", x.fam, x.bits, x.dw, x.cw), must: x.must})
+	}
 	sort.Slice(scalars, func(i, j int) bool { return scalars[i].name < scalars[j].name })
 	sort.Slice(slices, func(i, j int) bool { return slices[i].name < slices[j].name })
 	var sb strings.Builder
 	sb.WriteString("(* GENERATED by go/gen from binder.go and bind.go — do not edit *)\nFrom Coq Require Import List String ZArith.\nImport ListNotations.\nOpen Scope string_scope.\nOpen Scope Z_scope.\n")
-	sb.WriteString("(* (method, family 0 int | 1 uint | 2 float, bitSize given to strconv, width of the destination type,\n    width of the conversion in the type switch (0: no arm, -1: wrong signedness), valueMustExist) *)\n")
+	sb.WriteString("(* (method, family 0 int | 1 uint | 2 float | 3 bool | 4 duration, bitSize given to strconv, width of the destination type,\n    width of the conversion in the type switch (0: no arm, -1: wrong signedness), valueMustExist) *)\n")
 	sb.WriteString("Definition binder_scalars : list (string * Z * Z * Z * Z * bool) := [\n")
 	for i, s := range scalars {
 		fn := strings.TrimSuffix(s.helper, "Value")
-		fmt.Fprintf(&sb, "  (%q, %d, %s, %d, %d, %s)", s.name, famOf(s.helper), s.bits, typeWidth[s.dest], castW[fn][s.dest], s.must)
+		if strings.HasPrefix(s.helper, "#") {
+			fmt.Fprintf(&sb, "  (%q, %s, %s)", s.name, strings.ReplaceAll(s.helper[1:], ",", ", "), s.must)
+		} else {
+			fmt.Fprintf(&sb, "  (%q, %d, %s, %d, %d, %s)", s.name, famOf(s.helper), s.bits, typeWidth[s.dest], castW[fn][s.dest], s.must)
+		}
 		if i < len(scalars)-1 {
 			sb.WriteString(";")
 		}
@@ -160,7 +241,11 @@ func genBinder(repo string) (string, error) {
 		if bits == "" {
 			bits = "-2"
 		}
-		fmt.Fprintf(&sb, "  (%q, %d, %s, %d, %d, %s)", s.name, famOf(s.helper), bits, typeWidth[s.dest], castW[fn][s.dest], s.must)
+		if strings.HasPrefix(s.helper, "#") {
+			fmt.Fprintf(&sb, "  (%q, %s, %s)", s.name, strings.ReplaceAll(s.helper[1:], ",", ", "), s.must)
+		} else {
+			fmt.Fprintf(&sb, "  (%q, %d, %s, %d, %d, %s)", s.name, famOf(s.helper), bits, typeWidth[s.dest], castW[fn][s.dest], s.must)
+		}
 		if i < len(slices)-1 {
 			sb.WriteString(";")
 		}
@@ -186,7 +271,9 @@ func genBinder(repo string) (string, error) {
 			cc := c.(*ast.CaseClause)
 			if len(cc.List) == 1 && len(cc.Body) == 1 {
 				if rs, ok := cc.Body[0].(*ast.ReturnStmt); ok {
-					if ce, ok := rs.Results[0].(*ast.CallExpr); ok && len(ce.Args) == 3 {
+					if ce, ok := rs.Results[0].(*ast.CallExpr); ok && len(ce.Args) == 2 && lit(ce.Fun) == "setBoolField" {
+						kinds = append(kinds, fmt.Sprintf("  (%q, 3, 1, 1)", strings.ToLower(strings.TrimPrefix(lit(cc.List[0]), "reflect."))))
+					} else if ce, ok := rs.Results[0].(*ast.CallExpr); ok && len(ce.Args) == 3 {
 						kind := strings.ToLower(strings.TrimPrefix(lit(cc.List[0]), "reflect."))
 						setter := lit(ce.Fun)
 						fam := map[string]int{"setIntField": 0, "setUintField": 1, "setFloatField": 2}[setter]
@@ -200,17 +287,17 @@ func genBinder(repo string) (string, error) {
 		}
 		return false
 	})
-	if len(kinds) != 12 {
-		return "", fmt.Errorf("setWithProperType: expected 12 numeric kinds, found %d", len(kinds))
+	if len(kinds) != 13 {
+		return "", fmt.Errorf("setWithProperType: expected 12 numeric kinds and bool, found %d", len(kinds))
 	}
 	// the setters must parse with the given bitSize in base 10 and store only on success
-	for _, nm := range []string{"setIntField", "setUintField", "setFloatField"} {
+	for _, nm := range []string{"setIntField", "setUintField", "setFloatField", "setBoolField"} {
 		sfd := findFunc(f2, "", nm)
 		if sfd == nil {
 			return "", fmt.Errorf("%s not found", nm)
 		}
 		src := lit2(sfd)
-		want := map[string]string{"setIntField": "strconv.ParseInt(value,10,bitSize)", "setUintField": "strconv.ParseUint(value,10,bitSize)", "setFloatField": "strconv.ParseFloat(value,bitSize)"}[nm]
+		want := map[string]string{"setIntField": "strconv.ParseInt(value,10,bitSize)", "setUintField": "strconv.ParseUint(value,10,bitSize)", "setFloatField": "strconv.ParseFloat(value,bitSize)", "setBoolField": "strconv.ParseBool(value)"}[nm]
 		if !strings.Contains(src, want) {
 			return "", fmt.Errorf("%s no longer calls %s", nm, want)
 		}
